@@ -1,4 +1,12 @@
-"""C07 — expressions over numbers, strings and lists evaluate as Ink specifies."""
+"""C07 — expressions over numbers, strings and lists evaluate as Ink specifies.
+
+Two universes of LIST declarations are exercised: L / M / K (item names unique across the declarations, K with a
+duplicate value) and the SHARED-NAME universe P / Q / R, whose declarations give the same item names to different
+values (legal Ink: `LIST small = one, two` and `LIST pair = two, deux`).  In the second one an item is identified
+by (declaration, name) only — every place of the runtime that looks an item up by its bare name is wrong there.
+The native / chain / command streams run over both universes, and a compile + play stream of .ink programs with
+randomly generated LIST declarations (item names drawn from a small pool, so sharing is the normal case) compares
+list expressions, `~ v += n`, `~ v++` with the specification (Spec/ListSpec.v)."""
 import json, os
 import vlib, gen_tables
 from props import native_common as nc
@@ -31,6 +39,18 @@ LISTS_WF = [
     L([("K", "p", 1)]), L([("K", "p", 1), ("K", "q", 1)]), L([("K", "r", 4), ("K", "q", 1)]),
 ]
 LISTS_BAD = [L([("Z", "q", 9)]), L([(None, "a", 1)]), L([("L", "a", 7)]), L([], ["Z"])]
+# ---- the shared-name universe: P, Q and R declare the same item names with different values (R also gives one
+# value to two items)
+DEFS_SH = {"P": {"a": 1, "b": 2, "c": 3}, "Q": {"b": 1, "d": 2, "a": 3, "c": 4}, "R": {"a": 2, "d": 2, "e": 5}}
+def _sh(*its): return L([(o, n, DEFS_SH[o][n]) for o, n in its])
+LISTS_SH = [
+    L([]), L([], ["P", "Q"]), L([], ["R"]),
+    _sh(("P", "a")), _sh(("P", "b")), _sh(("Q", "b")), _sh(("Q", "a")), _sh(("R", "d")),
+    _sh(("P", "b"), ("Q", "b")), _sh(("P", "a"), ("Q", "a")), _sh(("P", "c"), ("Q", "c")),
+    _sh(("P", "a"), ("Q", "a"), ("R", "a")), _sh(("P", "b"), ("Q", "d")), _sh(("P", "a"), ("Q", "b")),
+    _sh(("Q", "d"), ("R", "d")), _sh(("P", "a"), ("P", "b"), ("Q", "b")), _sh(("P", "c"), ("Q", "a"), ("R", "e")),
+    _sh(("P", "a"), ("P", "c"), ("Q", "c"), ("R", "a")),
+]
 OTHERS = [DT("0.1"), DT("knot.0"), VP("x"), VOID, GLUE, TAG("t")]
 KINDS = {
     "int": [I(n) for n in INTS], "float": [F(x) for x in FLOATS], "bool": [B(True), B(False)],
@@ -40,14 +60,14 @@ ALL = [o for v in KINDS.values() for o in v]
 
 
 def order_sensitive(o):
-    """can the outcome depend on HashMap iteration order?  (two or more items, or an item of the
-    declaration K, which has two items with the same value)"""
-    return o[0] == "l" and (len(o[1]) >= 2 or any(org == "K" for org, _, _ in o[1]))
+    """can the outcome depend on HashMap iteration order?  (two or more items, or an item of a
+    declaration that has two items with the same value: K, and R in the shared-name universe)"""
+    return o[0] == "l" and (len(o[1]) >= 2 or any(org in ("K", "R") for org, _, _ in o[1]))
 
 
 def case_order_sensitive(args):
     """case level: the operands together hold two or more items (a union / intersection / chain can tie
-    items of different operands), or an item of K"""
+    items of different operands), or an item of K / R"""
     ls = [o for o in args if o[0] == "l"]
     return any(order_sensitive(o) for o in ls) or sum(len(o[1]) for o in ls) >= 2
 
@@ -172,6 +192,165 @@ def gen_chain_cases(ctx):
     return must + pool
 
 
+# ---------------------------------------------------------------- the shared-name universe (P / Q / R)
+def gen_shared_native_cases(ctx):
+    """list +- int on every list in full, every unary operator on every list, a sample of operand pairs for every
+    binary operator — all over declarations that share item names"""
+    incs = [I(n) for n in (1, -1, 2, -2, 0, 3, I32_MAX)]
+    cases = [(op, [a, n]) for op in ("NAdd", "NSubtract") for a in LISTS_SH for n in incs]
+    seen = {(op, tuple(args)) for op, args in cases}
+    right = LISTS_SH + incs[:3] + [S("a"), F(1.0), B(True)]
+    pool0 = [(a, b) for a in LISTS_SH for b in right] + [(b, a) for a in LISTS_SH[3:] for b in right[len(LISTS_SH):]]
+    per_op = 30 if ctx.quick() else len(pool0)
+    for op, (_, ar) in OPS.items():
+        if ar == 1:
+            cases += [(op, [a]) for a in LISTS_SH]
+            continue
+        pool = pool0 if len(pool0) <= per_op else ctx.rng.sample(pool0, per_op)
+        for a, b in pool:
+            if (op, (a, b)) not in seen:
+                seen.add((op, (a, b)))
+                cases.append((op, [a, b]))
+    return cases
+
+
+def gen_shared_chain_cases(ctx):
+    firsts = [(op, n) for op in ("NAdd", "NSubtract") for n in (I(1), I(-1), I(2))] \
+        + [(op, b) for op in ("NAdd", "NSubtract", "NIntersect") for b in LISTS_SH[3:]]
+    seconds = ["NAll", "NInvert", "NCount", "NListMin", "NListMax", "NValueOfList"]
+    must = [(a, op1, I(1), op2) for a in LISTS_SH[8:] for op1 in ("NAdd", "NSubtract") for op2 in ("NAll", "NInvert")]
+    pool = [(a, op1, b, op2) for a in LISTS_SH for (op1, b) in firsts for op2 in seconds]
+    pool = [c for c in pool if c not in must]
+    if ctx.quick():
+        pool = ctx.rng.sample(pool, 90)
+    return must + pool
+
+
+def gen_shared_cmd_cases(ctx):
+    """ListName(n) and LIST_RANGE over the shared-name universe: (kind, content, model-expr, seed, operands)"""
+    out = []
+    for n in [S("P"), S("Q"), S("R"), S("a")]:
+        for v in [I(0), I(1), I(2), I(3), I(4), I(5)]:
+            out.append(("listInt", [op_json(n), op_json(v), "listInt"],
+                        lambda oo, n=n, v=v: f"run_list_from_int {oo} fo defs_sh {op_coq(n)} {op_coq(v)}", 42, (n, v)))
+    bounds = [I(0), I(1), I(2), I(3), I(5)] + LISTS_SH[3:]
+    pool = [(t, a, b) for t in LISTS_SH for a in bounds for b in bounds]
+    if ctx.quick():
+        pool = ctx.rng.sample(pool, 70)
+    for t, a, b in pool:
+        out.append(("range", [op_json(t), op_json(a), op_json(b), "range"],
+                    lambda oo, t=t, a=a, b=b: f"run_list_range {oo} fo defs_sh {op_coq(t)} {op_coq(a)} {op_coq(b)}", 42,
+                    (t, a, b)))
+    return out
+
+
+# ---------------------------------------------------------------- compile + play of list expressions
+ITEM_POOL = ["a", "b", "c", "d", "e"]
+INK_LIST_BIN = {"NAdd": "+", "NSubtract": "-", "NIntersect": "^", "NEqual": "==", "NNotEquals": "!=", "NGreater": ">",
+                "NLess": "<", "NGreaterEq": ">=", "NLessEq": "<=", "NHas": "?", "NHasnt": "!?"}
+INK_LIST_UN = {"NCount": "LIST_COUNT", "NValueOfList": "LIST_VALUE", "NAll": "LIST_ALL", "NInvert": "LIST_INVERT",
+               "NListMin": "LIST_MIN", "NListMax": "LIST_MAX"}
+
+
+def gen_ink_list_case(rng):
+    """An .ink program with two or three LIST declarations whose item names are drawn from a pool of five (two
+    declarations usually share names; values implicit 1..n or explicit, duplicates allowed) and ONE list
+    expression over fully qualified items, inline or through a VAR (`~ v += n`, `~ v++`).  Returns
+    dict(ink=..., spec=<SpecRun entry point applied>, defs=..., form=...)."""
+    defs, decl = {}, []
+    for name in ["P", "Q", "R"][:rng.choice([2, 2, 3])]:
+        names = rng.sample(ITEM_POOL, rng.randint(2, 4))
+        if rng.random() < 0.5:
+            vals = list(range(1, len(names) + 1))
+            decl.append(f"LIST {name} = " + ", ".join(names))
+        else:
+            vals = [rng.randint(1, 6) for _ in names]
+            decl.append(f"LIST {name} = " + ", ".join(f"{n} = {v}" for n, v in zip(names, vals)))
+        defs[name] = dict(zip(names, vals))
+    everything = [(o, n, v) for o, d in defs.items() for n, v in d.items()]
+    shared = sorted({n for _, n, _ in everything if sum(1 for _, m, _ in everything if m == n) >= 2})
+
+    def lit(allow_empty=True):
+        if shared and rng.random() < 0.55:       # the items of one name in all the declarations that have it, + maybe one
+            nm = rng.choice(shared)
+            its = [x for x in everything if x[1] == nm]
+            if rng.random() < 0.4:
+                its += [x for x in [rng.choice(everything)] if x not in its]
+        else:
+            its = rng.sample(everything, rng.choice([1, 1, 2, 2, 3] + ([0] if allow_empty else [])))
+        rng.shuffle(its)
+        return "(" + ", ".join(f"{o}.{n}" for o, n, _ in its) + ")", L(its)
+
+    dcoq = defs_coq(defs)
+    head = "\n".join(decl) + "\n"
+    r = rng.random()
+    if r < 0.45:
+        form = "increment"
+        op = rng.choice(["NAdd", "NSubtract"])
+        n = rng.choice([1, 1, 1, 2, 2, 3, 0])
+        t, a = lit(allow_empty=False) if rng.random() < 0.9 else lit()
+        spec = f"run_spec_list_increment fo {dcoq} {op} {op_coq(a)} {op_coq(I(n))}"
+        sign = INK_LIST_BIN[op]
+        how = rng.random()
+        if how < 0.5:
+            ink = head + "A{" + f"{t} {sign} {n}" + "}B\n"
+        elif how < 0.7:
+            ink = head + f"VAR v = {t}\n" + "A{" + f"v {sign} {n}" + "}B\n"
+        elif how < 0.85 or n != 1:
+            ink = head + f"VAR v = {t}\n~ v {sign}= {n}\n" + "A{v}B\n"
+        else:
+            ink = head + f"VAR v = {t}\n~ v{sign}{sign}\n" + "A{v}B\n"
+    elif r < 0.7:
+        form = "unary"
+        op = rng.choice(list(INK_LIST_UN))
+        t, a = lit()
+        spec = f"run_spec_list_unary fo {dcoq} {op} {op_coq(a)}"
+        if rng.random() < 0.6:
+            ink = head + "A{" + f"{INK_LIST_UN[op]}({t})" + "}B\n"
+        else:
+            ink = head + f"VAR v = {t}\n" + "A{" + f"{INK_LIST_UN[op]}(v)" + "}B\n"
+    else:
+        form = "binary"
+        op = rng.choice(list(INK_LIST_BIN))
+        (ta, a), (tb, b) = lit(), lit()
+        spec = f"run_spec_list_binary fo {op} {op_coq(a)} {op_coq(b)}"
+        if rng.random() < 0.6:
+            ink = head + "A{" + f"{ta} {INK_LIST_BIN[op]} {tb}" + "}B\n"
+        else:
+            ink = head + f"VAR v = {ta}\n" + "A{" + f"v {INK_LIST_BIN[op]} {tb}" + "}B\n"
+    return dict(ink=ink, spec=spec, defs=defs, form=form)
+
+
+# regression corpus of the stream (always run, whatever the seed)
+INK_LIST_CORPUS = [
+    # two declarations share the name `two`; each item moves inside its own declaration
+    dict(ink="LIST small = one, two, three\nLIST pair = two, deux\nA{(small.two, pair.two) + 1}B\n",
+         spec="run_spec_list_increment fo {D} NAdd {A} (OVal (VInt 1))", form="increment",
+         defs={"small": {"one": 1, "two": 2, "three": 3}, "pair": {"two": 1, "deux": 2}},
+         lit=L([("small", "two", 2), ("pair", "two", 1)])),
+    dict(ink="LIST small = one, two, three\nLIST pair = two, deux\nVAR mixed = (small.two, pair.two)\n~ mixed -= 1\nA{mixed}B\n",
+         spec="run_spec_list_increment fo {D} NSubtract {A} (OVal (VInt 1))", form="increment",
+         defs={"small": {"one": 1, "two": 2, "three": 3}, "pair": {"two": 1, "deux": 2}},
+         lit=L([("small", "two", 2), ("pair", "two", 1)])),
+]
+
+
+def ink_list_cases(ctx):
+    out = []
+    for c in INK_LIST_CORPUS:
+        out.append(dict(ink=c["ink"], form=c["form"], defs=c["defs"],
+                        spec=c["spec"].replace("{D}", defs_coq(c["defs"])).replace("{A}", op_coq(c["lit"]))))
+    out += [gen_ink_list_case(ctx.rng) for _ in range(220 if ctx.quick() else 5000)]
+    return out
+
+
+def as_line(spec_text):
+    """SpecRun renders a value as the line `<value>`; the compile + play programs print `A{value}B`"""
+    if spec_text.startswith('ok("<') and spec_text.endswith('>\\u{a}")'):
+        return 'ok("A' + spec_text[5:-8] + 'B\\u{a}")'
+    return spec_text
+
+
 F32_OPS2 = ["add", "sub", "mul", "div", "rem", "min", "max", "cmp"]
 F32_OPS1 = ["neg", "floor", "ceil", "toi32"]
 
@@ -207,6 +386,32 @@ def f32_tie(ctx):
     return len(qs), bad
 
 
+def native_exprs(cases, defs, wf):
+    """model expressions of the native cases over the declarations named [defs] (well-formed lists: [wf]) and
+    the SPECIFICATION (Spec/ExprSpec.v) on the operands it covers: (exprs, indices with a spec, spec exprs)"""
+    exprs, sidx, sexprs = [], [], []
+    for k, (op, args) in enumerate(cases):
+        coq = [op_coq(x) for x in args]
+        a = ";".join(coq)
+        if case_order_sensitive(args):
+            exprs.append(f"all_orders (fun oo => run_native oo true fo {defs} {op} [{a}])")
+        else:
+            exprs.append(f"run_native ord_id true fo {defs} {op} [{a}]")
+        if all(x[0] in ("i", "f", "b", "s") for x in args):
+            sexprs.append(f"run_spec_scalar fo {op} [{a}]")
+        elif len(args) == 2 and all(x in wf for x in args):
+            sexprs.append(f"run_spec_list_binary fo {op} {coq[0]} {coq[1]}")
+        elif len(args) == 1 and args[0] in wf and op in ("NCount", "NValueOfList", "NNot", "NAll", "NInvert",
+                                                         "NListMin", "NListMax"):
+            sexprs.append(f"run_spec_list_unary fo {defs} {op} {coq[0]}")
+        elif len(args) == 2 and args[0] in wf and args[1][0] == "i" and op in ("NAdd", "NSubtract"):
+            sexprs.append(f"run_spec_list_increment fo {defs} {op} {coq[0]} {coq[1]}")
+        else:
+            continue
+        sidx.append(k)
+    return exprs, sidx, sexprs
+
+
 def run(ctx):
     facts = gen_tables.run(["native", "cmd", "path"])
     ctx.coverage["generated_tables"] = {k: v for k, v in facts.items() if not isinstance(v, dict)} | {
@@ -222,6 +427,8 @@ def run(ctx):
     mism, order_dep, spec_fail = [], [], []
     suspected = {}
     n_native = n_cmd = n_f32 = n_spec = n_chain = n_ink = n_cmd_spec = 0
+    n_shared = n_sh_spec = n_ink_list = n_ink_list_shared = 0
+    forms = {}
     tables = {}
     cases = []
     try:
@@ -236,29 +443,7 @@ def run(ctx):
         n_native = len(cases)
         impl = nc.run_impl([story_json(native_content(op, args)) for op, args in cases], exe, "n")
         lits = [I(v) if k == "i" else F(v) if k == "f" else B(v) if k == "b" else S(v) for k, v in INK_LITS]
-        fo, tables = nc.oracle_tables(cases + [("NPow", [a, b]) for a in lits for b in lits])
-        pre = fo + f"Definition defs : listdefs := {defs_coq()}.\n"
-        exprs, sidx, sexprs = [], [], []
-        for k, (op, args) in enumerate(cases):
-            coq = [op_coq(x) for x in args]
-            a = ";".join(coq)
-            if case_order_sensitive(args):
-                exprs.append(f"all_orders (fun oo => run_native oo true fo defs {op} [{a}])")
-            else:
-                exprs.append(f"run_native ord_id true fo defs {op} [{a}]")
-            # the SPECIFICATION (Spec/ExprSpec.v) on the operands it covers
-            if all(x[0] in ("i", "f", "b", "s") for x in args):
-                sexprs.append(f"run_spec_scalar fo {op} [{a}]")
-            elif len(args) == 2 and all(x in LISTS_WF for x in args):
-                sexprs.append(f"run_spec_list_binary fo {op} {coq[0]} {coq[1]}")
-            elif len(args) == 1 and args[0] in LISTS_WF and op in ("NCount", "NValueOfList", "NNot", "NAll", "NInvert",
-                                                                   "NListMin", "NListMax"):
-                sexprs.append(f"run_spec_list_unary fo defs {op} {coq[0]}")
-            elif len(args) == 2 and args[0] in LISTS_WF and args[1][0] == "i" and op in ("NAdd", "NSubtract"):
-                sexprs.append(f"run_spec_list_increment fo defs {op} {coq[0]} {coq[1]}")
-            else:
-                continue
-            sidx.append(k)
+        exprs, sidx, sexprs = native_exprs(cases, "defs", LISTS_WF)
         cmds = gen_cmd_cases(ctx)
         n_cmd = len(cmds)
         cmd_operands = {k: c[4] for k, c in enumerate(cmds) if len(c) > 4}
@@ -298,23 +483,66 @@ def run(ctx):
                                   for k, (t, _) in enumerate(inks)], exe)
         kimpl = [("compile:" + str(r.get("compile"))) if r.get("compile") != "ok" else nc.outcome(r) for r in kres]
         kexprs = [f"run_spec_expr fo {c}" for _, c in inks]
+        # ---- the shared-name universe (P / Q / R): the same native / chain / command streams
+        sh_cases = gen_shared_native_cases(ctx)
+        sh_impl = nc.run_impl([story_json(native_content(op, args), DEFS_SH) for op, args in sh_cases], exe, "sn")
+        sh_exprs, sh_sidx, sh_sexprs = native_exprs(sh_cases, "defs_sh", LISTS_SH)
+        sh_chains = gen_shared_chain_cases(ctx)
+        sh_himpl = nc.run_impl([story_json([op_json(a), op_json(b), OPS[op1][0], OPS[op2][0]], DEFS_SH)
+                                for a, op1, b, op2 in sh_chains], exe, "sh")
+        sh_hexprs = [f"all_orders (fun oo => run_native2 oo true fo defs_sh {op1} [{op_coq(a)};{op_coq(b)}] {op2} [])"
+                     for a, op1, b, op2 in sh_chains]
+        sh_cmds = gen_shared_cmd_cases(ctx)
+        sh_cimpl = [nc.outcome(r) for r in vlib.run_inkdrive(
+            [{"id": f"sc{k}", "story": story_json(c[1], DEFS_SH), "seed": c[3], "script": [["CONT"]]}
+             for k, c in enumerate(sh_cmds)], exe)]
+        sh_cexprs = [f"all_orders (fun oo => {c[2]('oo')})" for c in sh_cmds]
+        sh_csidx, sh_csexprs = [], []
+        for k, c in enumerate(sh_cmds):
+            ops_ = c[4]
+            if c[0] == "range":
+                sh_csexprs.append("run_spec_list_range fo " + " ".join(op_coq(x) for x in ops_))
+            elif ops_[0][0] == "s" and ops_[1][0] == "i":
+                sh_csexprs.append("run_spec_list_from_int fo defs_sh " + " ".join(op_coq(x) for x in ops_))
+            else:
+                continue
+            sh_csidx.append(k)
+        # ---- compile + play of list expressions over generated LIST declarations vs the specification
+        links = ink_list_cases(ctx)
+        lres = vlib.run_inkdrive([{"id": f"kl{k}", "ink": c["ink"], "script": [["CONT"]]} for k, c in enumerate(links)], exe)
+        limpl = [("compile:" + str(r.get("compile"))) if r.get("compile") != "ok" else nc.outcome(r) for r in lres]
+        lexprs = [c["spec"] for c in links]
+        fo, tables = nc.oracle_tables(cases + sh_cases + [("NPow", [a, b]) for a in lits for b in lits])
+        pre = fo + f"Definition defs : listdefs := {defs_coq()}.\nDefinition defs_sh : listdefs := {defs_coq(DEFS_SH)}.\n"
         timing["impl"] = round(time.time() - T0, 1)
 
         # ---- the four model batches, concurrently
-        f_f32 = pool.submit(f32_tie, ctx)
-        f_nat = pool.submit(nc.run_model, exprs, pre, "c07n")
-        f_spec = pool.submit(vlib.coq_eval_sharded, nc.PREAMBLE + "From Ink.Spec Require Import ExprSpec SpecRun.\n" + pre,
-                             sexprs + kexprs + csexprs, 300, "c07s")
-        f_cmd = pool.submit(nc.run_model, cexprs + hexprs, pre + rngt, "c07c")
+        def timed(name, fn, *a):
+            t1 = time.time()
+            try:
+                return fn(*a)
+            finally:
+                timing["batch_" + name] = round(time.time() - t1, 1)
+        f_f32 = pool.submit(timed, "f32", f32_tie, ctx)
+        f_nat = pool.submit(timed, "native", nc.run_model, exprs + sh_exprs, pre, "c07n")
+        spec_segs = [sexprs, kexprs, csexprs, sh_sexprs, sh_csexprs, lexprs]
+        f_spec = pool.submit(timed, "spec", vlib.coq_eval_sharded, nc.PREAMBLE + "From Ink.Spec Require Import ExprSpec SpecRun.\n" + pre,
+                             [e for seg in spec_segs for e in seg], 300, "c07s")
+        cmd_segs = [cexprs, hexprs, sh_cexprs, sh_hexprs]
+        f_cmd = pool.submit(timed, "cmd", nc.run_model, [e for seg in cmd_segs for e in seg], pre + rngt, "c07c")
         n_f32, badf = f_f32.result()
         for bd in badf:
             mism.append(dict(stream="f32", **bd))
-        model = nc.resolve_sentinels(f_nat.result())
-        smodel = nc.resolve_sentinels(f_spec.result())
-        smodel, kmodel, csmodel = (smodel[:len(sexprs)], smodel[len(sexprs):len(sexprs) + len(kexprs)],
-                                   smodel[len(sexprs) + len(kexprs):])
-        cmodel = nc.resolve_sentinels(f_cmd.result())
-        cmodel, hmodel = cmodel[:len(cmds)], cmodel[len(cmds):]
+        def split(xs, segs):
+            out, at = [], 0
+            for seg in segs:
+                out.append(xs[at:at + len(seg)])
+                at += len(seg)
+            assert at == len(xs)
+            return out
+        model, sh_model = split(nc.resolve_sentinels(f_nat.result()), [exprs, sh_exprs])
+        smodel, kmodel, csmodel, sh_smodel, sh_csmodel, lmodel = split(nc.resolve_sentinels(f_spec.result()), spec_segs)
+        cmodel, hmodel, sh_cmodel, sh_hmodel = split(nc.resolve_sentinels(f_cmd.result()), cmd_segs)
         pool.shutdown()
         timing["model"] = round(time.time() - T0, 1)
 
@@ -374,11 +602,70 @@ def run(ctx):
             n_ink += 1
             if i != m:
                 spec_fail.append(dict(op="ink", ink="A{" + t + "}B", impl=i, spec=m))
+        # ---- the shared-name universe: model vs implementation, implementation vs specification
+        sh_dep = set()
+        for k, ((op, args), i, m) in enumerate(zip(sh_cases, sh_impl, sh_model)):
+            alts = [strip_site(x) for x in m.split("\x03")]
+            if len(alts) > 1:
+                order_dep.append(dict(op=op, args=args, defs="shared", outcomes=alts))
+                sh_dep.add(k)
+            if i not in alts:
+                mism.append(dict(stream="native", defs="shared", op=op, args=args, impl=i, model=m))
+        for k, sp in zip(sh_sidx, sh_smodel):
+            if k in sh_dep:
+                continue
+            n_spec += 1
+            n_sh_spec += 1
+            if sp != sh_impl[k]:
+                op, args = sh_cases[k]
+                f = dict(op=op, args=args, defs="shared", impl=sh_impl[k], spec=sp)
+                if op in ("NListMin", "NListMax"):
+                    f["key"] = "spec-disagrees:list-min-max"
+                elif len(args) == 2 and args[1][0] == "i" and args[0][0] == "l":
+                    f["key"] = "spec-disagrees:list-increment"
+                spec_fail.append(f)
+        for c, i, m in zip(sh_cmds, sh_cimpl, sh_cmodel):
+            alts = [strip_site(x) for x in m.split("\x03")]
+            if len(alts) > 1:
+                order_dep.append(dict(op=c[0], content=c[1], defs="shared", outcomes=alts))
+            if i not in alts:
+                mism.append(dict(stream="cmd", defs="shared", kind=c[0], content=c[1], seed=c[3], impl=i, model=m))
+        for k, sp in zip(sh_csidx, sh_csmodel):
+            if sp == 'no-spec':
+                continue
+            n_spec += 1
+            n_cmd_spec += 1
+            if sp != sh_cimpl[k]:
+                c = sh_cmds[k]
+                spec_fail.append(dict(stream="cmd", defs="shared", kind=c[0], content=c[1], seed=c[3], impl=sh_cimpl[k],
+                                      spec=sp, key="spec-disagrees:" + ("list-range" if c[0] == "range" else "list-from-int")))
+        for (a, op1, b, op2), i, m in zip(sh_chains, sh_himpl, sh_hmodel):
+            alts = [strip_site(x) for x in m.split("\x03")]
+            if len(alts) > 1:
+                order_dep.append(dict(op=f"{op1};{op2}", args=[a, b], defs="shared", outcomes=alts))
+            if i not in alts:
+                mism.append(dict(stream="chain", defs="shared", ops=[op1, op2], args=[a, b], impl=i, model=m))
+        n_native += len(sh_cases)
+        n_cmd += len(sh_cmds)
+        n_chain += len(sh_chains)
+        n_shared = len(sh_cases) + len(sh_cmds) + len(sh_chains)
+        # ---- compiled list expressions vs the specification (property-direct)
+        for c, i, m in zip(links, limpl, lmodel):
+            if m == 'no-spec':
+                continue
+            n_ink_list += 1
+            forms[c["form"]] = forms.get(c["form"], 0) + 1
+            names = [nm for d in c["defs"].values() for nm in d]
+            if len(names) != len(set(names)):
+                n_ink_list_shared += 1
+            if i != as_line(m):
+                spec_fail.append(dict(op="ink-list", ink=c["ink"], form=c["form"], impl=i, spec=as_line(m),
+                                      key="spec-disagrees:list-" + c["form"] + "-compiled"))
     except RuntimeError as e:
         mism.append(dict(stream="model-does-not-evaluate", err=str(e)[-600:]))
 
     ctx.coverage.update(dict(
-        evaluations=n_native + n_cmd + n_f32 + n_spec + n_chain + n_ink,
+        evaluations=n_native + n_cmd + n_f32 + n_spec + n_chain + n_ink + n_ink_list,
         distinct_nontrivial=n_native + n_cmd + n_chain,
         rule="31 native operators x operand pairs drawn from 7 operand kinds (16 boundary ints incl. i32 MIN/MAX, 17 floats "
              "incl. +-0.0, 0.5, 1e9, 3e9, f32::MAX, denormal, strings incl. empty/numeric/non-ASCII, 16 well-formed lists over "
@@ -391,7 +678,12 @@ def run(ctx):
              "built-in functions) compiled and played by the real code vs Spec.spec_eval on the source tree; "
              "the implementation's LIST_RANGE (int and list bounds, incl. bound lists with several values on either side), "
              "ListName(n), LIST_MIN / LIST_MAX and list +- int results compared with Spec/ListSpec.v "
-             "(s_range_b, s_from_int, s_min_list / s_max_list, s_shift)",
+             "(s_range_b, s_from_int, s_min_list / s_max_list, s_shift); "
+             "the native / chain / command streams once more over a second universe of three LIST declarations that "
+             "SHARE item names (18 lists incl. same-named items of two and three declarations; list +- int in full); "
+             "plus .ink programs with 2-3 generated LIST declarations (item names from a pool of five, implicit or "
+             "explicit values) and one list expression (list +- n inline / through a VAR / `~ v += n` / `~ v++`, "
+             "LIST_COUNT / VALUE / ALL / INVERT / MIN / MAX, list op list) compiled and played vs Spec/ListSpec.v",
         samples=[dict(op=cases[0][0], args=cases[0][1]), dict(op=cases[len(cases) // 2][0], args=cases[len(cases) // 2][1])]
         if n_native else [],
         traces_validated_against_impl=n_native + n_cmd + n_f32 + n_chain,
@@ -399,6 +691,11 @@ def run(ctx):
         compared_with_specification=n_spec,
         list_commands_compared_with_specification=n_cmd_spec,
         ink_expressions_compiled_and_played=n_ink,
+        shared_name_universe_cases=n_shared,
+        shared_name_universe_compared_with_specification=n_sh_spec,
+        ink_list_programs_compiled_and_played=n_ink_list,
+        ink_list_programs_with_shared_item_names=n_ink_list_shared,
+        ink_list_program_forms=forms,
         correspondence_mismatches=len(mism),
         order_dependent_cases=len(order_dep),
         order_dependent_sample=order_dep[:3],
@@ -429,8 +726,18 @@ def replay(ctx, payload):
     ms = r.get("mismatches") or ([r] if r.get("op") or r.get("stream") else [])
     n = 0
     for m in ms:
-        if m.get("stream") == "cmd" and m.get("content"):
-            res = vlib.run_inkdrive([{"id": "r0", "story": story_json(m["content"]), "seed": m.get("seed", 42),
+        defs = DEFS_SH if m.get("defs") == "shared" else nc.DEFS
+        if m.get("op") == "ink-list" and m.get("ink"):
+            res = vlib.run_inkdrive([{"id": "r0", "ink": m["ink"], "script": [["CONT"]]}], exe)
+            out = ("compile:" + str(res[0].get("compile"))) if res[0].get("compile") != "ok" else nc.outcome(res[0])
+            n += 1
+            if out == m.get("spec"):
+                ctx.notes.append(f"replay: now as specified: {out} (was {m.get('impl')})")
+            else:
+                ctx.violation(f"replayed: {json.dumps(m['ink'])} -> {out} (specification {m.get('spec')})", m,
+                              key=m.get("key"))
+        elif m.get("stream") == "cmd" and m.get("content"):
+            res = vlib.run_inkdrive([{"id": "r0", "story": story_json(m["content"], defs), "seed": m.get("seed", 42),
                                       "script": [["CONT"]]}], exe)
             out = nc.outcome(res[0])
             n += 1
@@ -444,9 +751,12 @@ def replay(ctx, payload):
             args = [tuple(tuple(y) if isinstance(y, list) else y for y in a) for a in m["args"]]
             args = [tuple(tuple(tuple(z) for z in y) if isinstance(y, tuple) and y and isinstance(y[0], tuple) else y
                           for y in a) for a in args]
-            out = nc.run_impl([story_json(native_content(m["op"], args))], exe, "r")[0]
+            out = nc.run_impl([story_json(native_content(m["op"], args), defs)], exe, "r")[0]
             n += 1
-            if out != m.get("impl"):
+            if "spec" in m and out != m["spec"]:
+                ctx.violation(f"replayed: {m['op']} {m['args']} -> {out} (specification {m['spec']})", m,
+                              key=m.get("key"))
+            elif out != m.get("impl"):
                 ctx.notes.append(f"replay: outcome changed: was {m.get('impl')} now {out}")
             else:
                 ctx.violation(f"replayed: {m['op']} {m['args']} -> {out} (model {m.get('model')})", m, no_input=True)
